@@ -30,6 +30,12 @@ def run(repo, run, tier):
     # 'a terminal event stops the run': the is_terminal flag is read from the object the caller passed
     from .c07 import flags_from_given_object
     flags_from_given_object(repo, run, "C09.10")
+    # a terminal event that takes the state derivative is located with sol.grad: it must be the derivative of the value polynomial for steps of either sign
+    from ..report import Rejudged
+    from .c17 import hermite
+    rj = Rejudged(run, {"C17.2": "C09.11"}, note="re-judged for C09: events with requires_dstate are located through the interpolant's gradient")
+    hermite(repo, rj)
+    rj.finish_rejudge()
 
 
 # ------------------------------------------------------------------------------------------------
